@@ -14,6 +14,7 @@ import (
 	"os"
 	"strconv"
 	"strings"
+	"sync"
 	"time"
 
 	"github.com/codenotary/immudb/embedded/store"
@@ -246,8 +247,68 @@ type c07BytesErr struct {
 }
 
 func (w *c07Store) ExportTx(id uint64, allowPre, skip bool, tx *store.Tx) ([]byte, error) {
-	v := c07Live(w.r, "ExportTx", fmt.Sprint(id), func() c07BytesErr { b, err := w.raw.ExportTx(id, allowPre, skip, tx); return c07BytesErr{b, err} })
+	v := c07Live(w.r, "ExportTx", fmt.Sprint(id), func() c07BytesErr {
+		defer c07ExportEnter(w.raw)()
+		b, err := w.raw.ExportTx(id, allowPre, skip, tx)
+		return c07BytesErr{b, err}
+	})
 	return v.b, v.err
+}
+
+// ------------------------------------------------------------------ measurement: ExportTx calls in flight per store
+//
+// How many ExportTx calls run AT THE SAME TIME on one store is what decides whether the check explores the sharing of
+// store-wide state between exports at all (the scratch buffer `_valBs`, the Tx holder pool, the value cache). Every
+// ExportTx call of the C07 harness goes through c07ExportEnter (any goroutine); the maximum is reported in the evidence
+// (`export_max_in_flight_per_store`) and the run is inconclusive when it stays below 2.
+
+var (
+	c07ExpMu       sync.Mutex
+	c07ExpInFlight = map[interface{}]int{}
+	c07ExpMax      int   // max over all stores of the calls in flight on that store
+	c07ExpCalls    int64 // all ExportTx calls
+	c07ExpOverlap  int64 // calls that started while another call on the same store was in flight
+)
+
+// c07ExportEnter registers the start of an ExportTx call on store st (the key is only compared); the returned function
+// registers its end.
+func c07ExportEnter(st interface{}) func() {
+	c07ExpMu.Lock()
+	c07ExpInFlight[st]++
+	n := c07ExpInFlight[st]
+	if n > c07ExpMax {
+		c07ExpMax = n
+	}
+	c07ExpCalls++
+	if n > 1 {
+		c07ExpOverlap++
+	}
+	c07ExpMu.Unlock()
+	return func() {
+		c07ExpMu.Lock()
+		if c07ExpInFlight[st]--; c07ExpInFlight[st] == 0 {
+			delete(c07ExpInFlight, st)
+		}
+		c07ExpMu.Unlock()
+	}
+}
+
+// c07ExportRecord merges the measurement of a scenario that counts its own calls with atomics (c07cx.go: no global mutex
+// on the path of the concurrent exporters).
+func c07ExportRecord(max int, calls, overlapping int64) {
+	c07ExpMu.Lock()
+	defer c07ExpMu.Unlock()
+	if max > c07ExpMax {
+		c07ExpMax = max
+	}
+	c07ExpCalls += calls
+	c07ExpOverlap += overlapping
+}
+
+func c07ExportMeasure() (max int, calls, overlapping int64) {
+	c07ExpMu.Lock()
+	defer c07ExpMu.Unlock()
+	return c07ExpMax, c07ExpCalls, c07ExpOverlap
 }
 
 func (w *c07Store) ReadTx(id uint64, skip bool, tx *store.Tx) error {
@@ -363,6 +424,7 @@ func (w *c07DBw) ExportTxByID(ctx context.Context, req *schema.ExportTxRequest) 
 	v := c07Live(w.r, "db.ExportTxByID", args, func() c07ExpRes {
 		c, cancel := context.WithTimeout(ctx, c07Bound()*2)
 		defer cancel()
+		defer c07ExportEnter(w.raw)()
 		bs, id, alh, err := w.raw.ExportTxByID(c, req)
 		return c07ExpRes{bs, id, alh, err}
 	})
